@@ -147,7 +147,9 @@ func (s *Server) Set(ctx context.Context, req *gnmi.SetRequest) (*gnmi.SetRespon
 
 	for transactionEvent := range eventCh {
 		if (transactionEvent.Transaction.TransactionStrategy.Synchronicity == configapi.TransactionStrategy_ASYNCHRONOUS &&
-			transactionEvent.Transaction.Status.State == configapi.TransactionStatus_COMMITTED) ||
+			(transactionEvent.Transaction.Status.State == configapi.TransactionStatus_COMMITTED ||
+				// the replayed state may already be past COMMITTED
+				transactionEvent.Transaction.Status.State == configapi.TransactionStatus_APPLIED)) ||
 			(transactionEvent.Transaction.TransactionStrategy.Synchronicity == configapi.TransactionStrategy_SYNCHRONOUS &&
 				transactionEvent.Transaction.Status.State == configapi.TransactionStatus_APPLIED) {
 			updateResults := make([]*gnmi.UpdateResult, 0)
